@@ -20,6 +20,8 @@
  *         busy / wrong-type handle   C uv_close   N pending_count   T pending_type
  *         M<kinds> send one message with descriptors (t tcp, u unix, d udp)
  *         F<j> the j-th queue allocation from now fails
+ *         D<n> send a plain data chunk of n bytes (mode i<size>: alloc_cb hands out <size> bytes)
+ *         S1|S0 descriptor shortage on/off: accept4 answers EMFILE unless libuv gave up its spare fd
  * script: p | e<errno> per accept4 call on the listening socket; o0|o1 per re-open
  * output: trace ; accept4 or recvmsg log ; event bits ; alloc log ; open log ; client states
  */
@@ -78,6 +80,9 @@ static struct { ino_t ino; char kind; int peer; } sent[MAXC * 4]; static int nse
 static int tcp_listener = -1, tcp_lport, udp_recv = -1, udp_rport;
 static int in_window, fail_at;
 static char rbuf[65536];
+static size_t g_alloc_size = sizeof rbuf;      /* what alloc_cb hands out (mode i<n>) */
+static unsigned long bytes_sent, bytes_read; static int fds_sent;
+static int g_shortage, slot_free;              /* S1/S0: the process is at its descriptor limit */
 
 static void do_ops(char* ops, int in_cb);
 
@@ -96,6 +101,7 @@ int __wrap_accept4(int fd, struct sockaddr* a, socklen_t* l, int flags) {
   const char* tok; int r, e;
   if (!g_active || fd != g_watch_fd || g_mode == 'i') return __real_accept4(fd, a, l, flags);
   tok = acc_pos < n_acc ? acc_script[acc_pos++] : "p";
+  if (tok[0] != 'e' && g_shortage && !slot_free) tok = "e24";     /* at the limit and nothing was given up */
   if (tok[0] == 'e') {
     e = atoi(tok + 1); fprintf(alog, "e%d ", e); errno = e; return -1;
   }
@@ -136,6 +142,7 @@ ssize_t __wrap_recvmsg(int fd, struct msghdr* msg, int flags) {
     }
   }
   fprintf(mlog, " ");
+  if (msg->msg_flags & MSG_CTRUNC) fprintf(mlog, "T ");      /* the kernel discarded descriptors */
   in_window = 1;
   return r;
 }
@@ -148,6 +155,7 @@ long __wrap_syscall(long nr, ...) {
   va_end(ap);
   if (nr == SYS_close && g_active) {
     int id = tracked((int) a1);
+    if ((int) a1 == loop.emfile_fd && loop.emfile_fd != -1) slot_free = 1;
     if (id >= 0) {
       if (!g_quiet) printf("x%d ", id);
       if (g_mode != 'i' && id < MAXC) c_closed[id] = 1;
@@ -172,6 +180,7 @@ int __wrap_open64(const char* path, int flags, ...) {
     const char* tok = open_pos < n_open ? open_script[open_pos++] : "o1";
     if (tok[1] == '0') { fprintf(olog, "0 "); errno = EMFILE; return -1; }
     fprintf(olog, "1 ");
+    slot_free = 0;
   }
   return __real_open64(path, flags, mode);
 }
@@ -204,12 +213,13 @@ static void conn_cb(uv_stream_t* s, int status) {
   if (status == 0) printf("c "); else printf("c!%d ", status);
   run_beh();
 }
-static void alloc_cb(uv_handle_t* h, size_t sz, uv_buf_t* b) { (void) h; (void) sz; *b = uv_buf_init(rbuf, sizeof rbuf); }
+static void alloc_cb(uv_handle_t* h, size_t sz, uv_buf_t* b) { (void) h; (void) sz; *b = uv_buf_init(rbuf, g_alloc_size); }
 static void read_cb(uv_stream_t* s, ssize_t n, const uv_buf_t* b) {
   (void) s; (void) b;
   in_window = 0;
   if (g_quiet) return;
   if (n == 0) return;                      /* EAGAIN */
+  if (n > 0) bytes_read += (unsigned long) n;
   printf("r%d ", n > 0 ? 1 : (int) n);
   run_beh();
 }
@@ -274,7 +284,8 @@ static void send_msg(const char* kinds) {
     c = CMSG_FIRSTHDR(&m); c->cmsg_level = SOL_SOCKET; c->cmsg_type = SCM_RIGHTS; c->cmsg_len = CMSG_LEN(n * sizeof(int));
     memcpy(CMSG_DATA(c), fds, n * sizeof(int));
   }
-  if (sendmsg(ipc_peer, &m, 0) != 1 && errno != EPIPE && errno != ECONNRESET) printf("!send%d ", errno);
+  if (sendmsg(ipc_peer, &m, 0) == 1) { bytes_sent += 1; fds_sent += n; }
+  else if (errno != EPIPE && errno != ECONNRESET) printf("!send%d ", errno);
   for (i = 0; i < n; i++) close(fds[i]);
 }
 
@@ -327,6 +338,16 @@ static void do_ops(char* ops, int in_cb) {
     case 'K': if (!in_cb && g_mode != 'i') { int n = atoi(tok + 1); while (n-- > 0) new_client(); } break;
     case 'M': if (!in_cb && g_mode == 'i') send_msg(tok + 1); break;
     case 'F': if (!in_cb) fail_at = atoi(tok + 1); break;
+    case 'D':                                  /* a plain data chunk, no descriptor */
+      if (!in_cb && g_mode == 'i') {
+        static char chunk[4096]; size_t n = (size_t) atoi(tok + 1); ssize_t w;
+        if (n < 1) n = 1; if (n > sizeof chunk) n = sizeof chunk;
+        memset(chunk, 'd', n);
+        w = send(ipc_peer, chunk, n, MSG_DONTWAIT);
+        if (w > 0) bytes_sent += (unsigned long) w;
+      }
+      break;
+    case 'S': if (!in_cb && g_mode != 'i') { g_shortage = tok[1] == '1'; if (g_shortage) slot_free = 0; } break;
     case 'R':
       if (in_cb) break;
       saw_event = 0;
@@ -369,6 +390,9 @@ static void run_case(char* line) {
   g_mode = 0;
   for (p = sec[0]; *p; p++) if (*p == 't' || *p == 'u' || *p == 'i') g_mode = *p;
   if (!g_mode) { printf("badmode\n"); return; }
+  g_alloc_size = sizeof rbuf; bytes_sent = bytes_read = 0; fds_sent = 0; g_shortage = 0; slot_free = 0;
+  for (p = sec[0]; *p; p++) if (*p >= '1' && *p <= '9') { g_alloc_size = (size_t) atoi(p); break; }
+  if (g_alloc_size < 1 || g_alloc_size > sizeof rbuf) g_alloc_size = sizeof rbuf;
   g_case_no++;
   nbeh = 0; cbn = 0;
   for (p = sec[2]; p && nbeh < MAXBEH; ) {
@@ -427,7 +451,7 @@ static void run_case(char* line) {
   uv_walk(&loop, walk_close, NULL);
   for (i = 0; i < 50 && uv_run(&loop, UV_RUN_NOWAIT); i++) ;
   { int alive = uv_loop_alive(&loop); printf("%d,%d", alive, uv_loop_close(&loop)); }   /* 7th section */
-  printf("\n");
+  printf(" ; %lu,%lu,%d\n", bytes_sent, bytes_read, fds_sent);                           /* 8th: ipc totals */
   for (i = 0; i < nclient; i++) if (cfd[i] >= 0) abort_close(cfd[i]);
   for (i = 0; i < nsent; i++) if (sent[i].peer >= 0) abort_close(sent[i].peer);
   if (ipc_peer >= 0) close(ipc_peer);
